@@ -273,6 +273,12 @@ Theorem C16_sub_empty : forall r, sub r empty_res = r.
 Proof. exact sub_empty. Qed.
 Print Assumptions C16_sub_empty.
 
+Theorem C16_sub_add_pointwise : forall r x, sc r <> None ->
+  cpu (add (sub r x) x) = cpu r /\ mem (add (sub r x) x) = mem r /\
+  forall k, sget (add (sub r x) x) k = sget r k.
+Proof. exact sub_add_pointwise. Qed.
+Print Assumptions C16_sub_add_pointwise.
+
 Theorem C16_add_comm : forall r x,
   cpu (add r x) = cpu (add x r) /\ mem (add r x) = mem (add x r) /\
   forall k, scm (add r x) !! k = scm (add x r) !! k.
@@ -487,6 +493,25 @@ Theorem C16_law_sub_assert_accepts_model : forall eps r rr,
                  (less_equal eps rr r DZero) = true.
 Proof. exact law_sub_assert_model. Qed.
 Print Assumptions C16_law_sub_assert_accepts_model.
+
+(* "clones share no storage" cannot be a theorem about a value-semantics model; it is law 118 on the real
+   objects (clone, mutate the clone, observe the source).  What the law means, and that the model meets it: *)
+Theorem C16_law_clone_independent_spec : forall d before a1 a2 a3,
+  law_clone_independent d before a1 a2 a3 = true <->
+  (d_count before = d_count d /\ d_caps before = d_caps d) /\
+  (d_count a1 = d_count before /\ d_caps a1 = d_caps before) /\
+  (d_count a2 = d_count before /\ d_caps a2 = d_caps before) /\
+  (d_count a3 = d_count before /\ d_caps a3 = d_caps before).
+Proof. exact law_clone_independent_spec. Qed.
+Print Assumptions C16_law_clone_independent_spec.
+
+Theorem C16_law_clone_independent_accepts_model : forall d, law_clone_independent d d d d d = true.
+Proof. exact law_clone_independent_model. Qed.
+Print Assumptions C16_law_clone_independent_accepts_model.
+
+Theorem C16_law_sub_add_accepts_model : forall r x, law_sub_add r x (sub r x) (add (sub r x) x) = true.
+Proof. exact law_sub_add_model. Qed.
+Print Assumptions C16_law_sub_add_accepts_model.
 
 Theorem C16_law_min_inf_accepts_model : forall r rr, law_min_inf r rr (min_dim r rr DInf) = true.
 Proof. exact law_min_inf_model. Qed.
